@@ -221,7 +221,7 @@ Example C16_example_close_pending :
    rev (cpubs (trace s3)) = [false; true; true; true; false] /\
    skipn 8 (pubs_of (history s3)) =
      [PEndAll; PCont true; PRunInfo 1 RFinished 7 (Some OReturn); PCont true;
-      PState Finished; PState Closed; PCont false; PEndCont] /\
+      PState Finished; PState Closed; PEndAll; PCont false; PEndCont] /\
    rev (rets_of (trace s3)) =
      [(0%nat, CStart, ROk); (1%nat, CRunCont, ROk); (2%nat, CClose, ROk); (3%nat, CRunCont, RMachineError)]).
 Proof. vm_compute. repeat split; reflexivity. Qed.
